@@ -11,6 +11,13 @@ streams
           .filename, .__str__, Renderer.cacheFilenames, Macro.id, idgen, SectionUtils.tableofcontents/links,
           TableOfContents and Context.label/ref run.  ~15% malformed (duplicate labels, levels that do not nest,
           a root that creates no file): implementation vs model only.
+  idx   : the groups of the index page (IndexUtils.groups): random index keys (ASCII letters, digits, symbols, underscore,
+          accented / Greek / Cyrillic initials, multi-character transliterations, sub-entries, formats) parsed by the real
+          code; the request line is the sequence of transliterated upper-cased first characters in the order of the sorted
+          index; observation = (title, id, number of entries) per group; oracle = ids pairwise distinct.
+  post  : Renderer.processFileContent of the HTML5 and XHTML renderers on pages made of paragraphs, table cells, blanks,
+          text, empty anchors (index targets), empty elements with an id and links: the identifiers and hrefs of the page
+          must survive the post-processing step unchanged (Spec.Links.pageIds / pageHrefs).
   doc14 : (extra_checks) generated LaTeX documents with cross-file labels/refs, footnotes, index entries, bibliography,
           lists, theorems, floats x split level x toc depth x toc-non-files x base-url x {HTML5 default, HTML5 minimal,
           XHTML default}; output parsed with html.parser; oracle in c14doc.py.
@@ -34,7 +41,8 @@ LEVEL_TEXT = ('Lean 4 theorems over a line-by-line model of Macro.id/idgen, Rend
               'Renderable.__str__ (Model/Render.lean) writes the node\'s own template output. Footnotes: the mark of a footnote is printed in the file of its own URL, its text by the layout '
               'of the section SectionUtils.footnotes finds by walking currentSection until a section has a filename; footnote_mark_lands proves both are the same produced file whenever only '
               'sections create files, footnote_mark_lands_of_document for every filename template (a template naming a single file forces level -10: effSplit), every split level below '
-              'ENDSECTIONS_LEVEL and every document (prepared_navOK). The model is tied to the real code by differential execution of abstract trees through the real '
+              'ENDSECTIONS_LEVEL and every document (prepared_navOK). Index page: index_group_ids_unique proves that the group headings (one navigation link #id and one heading id per group) have '
+              'pairwise distinct ids for every sequence of entries in any order and any transliteration (model of IndexUtils.groups, Model/UrlsIndex.lean), index_every_entry_grouped that no entry is lost. The model is tied to the real code by differential execution of abstract trees through the real '
               'Renderer with stub templates; which templates emit id=/href= is carried by the document stream doc14 '
               '(real HTML5 default/minimal and XHTML default themes, output parsed with html.parser).')
 LEVEL_NOTE = ('Trusted: Lean kernel, the correspondence harness and generators, html.parser, the Python document oracle c14doc.py (LaTeX numbering rules '
@@ -49,7 +57,7 @@ ASSUMPTIONS = ['labels pairwise distinct and not of the form a<10 digits> (NF-do
 RULE = ('url: random render trees (<= 40 nodes, depth <= 6; 1% with 80-200 nodes) with footnotes in paragraphs and environments, x filename template (default, single-name, other wildcard templates) '
         'x labels (25% of the trees draw labels that collide as file names: S:a/S.a/S-a/S!a, index, sect0001, ...), 85% well-formed (levels nest, labels distinct, document root), 15% malformed; '
         'non-trivial = well-formed, at least two files, at least one node inside a file with a fragment URL, and a toc or reference present; '
-        'doc14: generated LaTeX documents (30% with section labels that collide as file names or equal names the template hands out; index keys of every group: letters, digits, symbols, underscore, key@display, |textbf, |see) x configuration incl. filename template; non-trivial = more than one output file and at least one cross-file link; distinct = distinct request line / document+configuration')
+        'idx: 1-10 random index keys per case from a 33-key alphabet covering every group kind; non-trivial = at least two groups; doc14: generated LaTeX documents (index/footnote/cite commands inside running text or as the sole content of a paragraph; index keys with accented/Greek initials next to plain ones; 30% with section labels that collide as file names or equal names the template hands out; index keys of every group: letters, digits, symbols, underscore, key@display, |textbf, |see) x configuration incl. filename template; non-trivial = more than one output file and at least one cross-file link; distinct = distinct request line / document+configuration')
 EXHAUSTIVE = {}
 CASE_TIMEOUT = 30
 GENERATED = []
@@ -155,6 +163,120 @@ def gen_url_case(rng, origin='gen', big=False):
     return Case('url', line, {'malformed': mal}, origin)
 
 
+# ---------------------------------------------------------------- idx stream (groups of the index page)
+
+IDXKEYS = ['alpha', 'Alpha', 'apple', 'beta', 'zeta', 'Zulu', 'omega', 'echo', 'Eccles', 'ufer', 'nadir', 'oslo',
+           '2nd', '42', '\\_x', '\\_\\_init', '\\#hash', '\\$var',
+           '\u00c9clair', '\u00e9mile', '\u00c4rger', '\u00e4hnlich', '\u00fcber', '\u00d1and\u00fa', '\u00d8rsted', '\u00df-set', '\u00c6on',
+           '\u03a9mega', '\u0416uk', 'alpha!sub', 'zeta@\\textbf{zeta}', 'beta|textbf', 'omega|see{alpha}']
+
+
+def index_doc(keys):
+    return ('\\documentclass{article}\\usepackage{makeidx}\\makeindex\\begin{document}' +
+            ' '.join('x\\index{%s}' % k for k in keys) + '\\printindex\\end{document}')
+
+
+def parse_index(keys):
+    from plasTeX.TeX import TeX, TeXDocument
+    doc = TeXDocument()
+    tex = TeX(doc)
+    tex.input(index_doc(keys))
+    tex.parse()
+    return doc.getElementsByTagName('printindex')[0]
+
+
+def gen_idx_case(rng, origin='gen'):
+    """the request line is what the grouping loop reads: for every top-level entry of the *sorted* index the
+    transliterated, upper-cased first character of its sort key (sorting is C18's, unidecode a library)"""
+    from plasTeX.Base.LaTeX.Index import unidecode
+    keys = [rng.choice(IDXKEYS) for _ in range(rng.randint(1, 10))]
+    return idx_case_of(keys, origin)
+
+
+def idx_case_of(keys, origin='shrink'):
+    from plasTeX.Base.LaTeX.Index import unidecode
+    toks = []
+    for it in parse_index(keys):
+        try:
+            t = unidecode(it.sortkey[0]).upper()
+            toks.append('.'.join(str(ord(c)) for c in t) if t else 'e')
+        except IndexError:
+            toks.append('!')
+    return Case('idx', ' '.join(toks), {'keys': keys}, origin)
+
+
+def run_idx(case):
+    pi = parse_index(case.meta['keys'])
+    return ';'.join('%s/%s/%d' % (g.title, g.id, sum(len(col) for col in g)) for g in pi.groups)
+
+
+# ---------------------------------------------------------------- post stream (Renderer.processFileContent)
+
+POSTHTML = {'P': '<p>', '/P': '</p>', 'TD': '<td>', '/TD': '</td>', 'BR': '<br>', 'W': ' \n', 'T': 'some text'}
+
+
+def gen_post_case(rng, origin='gen'):
+    """pages made of paragraphs, cells, blanks, text, empty anchors (index targets), empty elements with an id and
+    links; paragraphs whose only content is anchors / blanks are the interesting ones"""
+    toks, n = [], 0
+    for _ in range(rng.randint(1, 6)):
+        r = rng.random()
+        inner = []
+        for _ in range(rng.choice([0, 1, 1, 2, 3])):
+            q = rng.random()
+            n += 1
+            if q < 0.3: inner.append('A=a%d' % n)
+            elif q < 0.45: inner.append('E=e%d' % n)
+            elif q < 0.6: inner.append('W')
+            elif q < 0.8: inner.append('T')
+            elif q < 0.9: inner.append('L=f.html#a%d' % rng.randint(1, n))
+            else: inner.append('BR')
+        if r < 0.6: toks += ['P'] + inner + ['/P']
+        elif r < 0.8: toks += ['TD'] + inner + ['/TD']
+        else: toks += inner
+        if rng.random() < 0.4: toks.append('W')
+    return Case('post', ' '.join(toks), {}, origin)
+
+
+_post = {}
+
+
+def run_post(line):
+    from html.parser import HTMLParser
+    if not _post:
+        from plasTeX.TeX import TeXDocument
+        from plasTeX.Config import defaultConfig
+        from plasTeX.Renderers.HTML5.Config import addConfig
+        from plasTeX.Renderers.HTML5 import Renderer as H5
+        from plasTeX.Renderers.XHTML import Renderer as XH
+        config = defaultConfig()
+        addConfig(config)
+        doc = TeXDocument(config=config)
+        doc.rendererdata['html5'] = {}
+        _post.update(doc=doc, H5=H5(), XH=XH())
+    parts = []
+    for w in line.split():
+        if w.startswith('A='): parts.append('<a name="%s" id="%s"></a>' % (w[2:], w[2:]))
+        elif w.startswith('E='): parts.append('<span id="%s"></span>' % w[2:])
+        elif w.startswith('L='): parts.append('<a href="%s">1</a>' % w[2:])
+        else: parts.append(POSTHTML[w])
+    page = ''.join(parts)
+    out = []
+    for name in ('H5', 'XH'):
+        s = _post[name].processFileContent(_post['doc'], page)
+        ids, hrefs = [], []
+
+        class Pg(HTMLParser):
+            def handle_starttag(self, tag, attrs):
+                a = dict(attrs)
+                if a.get('id') is not None: ids.append(a['id'])
+                if a.get('href') is not None: hrefs.append(a['href'])
+            handle_startendtag = handle_starttag
+        pg = Pg(); pg.feed(s); pg.close()
+        out.append('%s:%s|%s' % (name, ','.join(ids), ','.join(hrefs)))
+    return ';'.join(out)
+
+
 def generate(ctx):
     rng = ctx.rng
     n = 2000 if ctx.tier == 'quick' else 24000
@@ -162,11 +284,18 @@ def generate(ctx):
         yield gen_url_case(rng)
     for _ in range(n // 100):
         yield gen_url_case(rng, big=True)       # long documents: many generated identifiers in one render
+    for _ in range(n // 10):
+        yield gen_idx_case(rng)
+    for _ in range(n // 4):
+        yield gen_post_case(rng)
 
 
 def corpus():
     C = lambda line: Case('url', line, {'malformed': False}, 'corpus')
     return [
+        # index groups: an accented initial sorts after z without a collator but belongs to the group of A
+        idx_case_of(['Apfel', 'zeta', '\u00c4rger'], 'corpus'),
+        idx_case_of(['\u00df-set', '2nd', '\\_x', 'alpha', '\u00c6on'], 'corpus'),
         # two sections, an equation inside a paragraph, a subsection inside a file; toc + refs
         C('1 3 0 - index~[$id,~sect$num(4)] 2 s1 zz N -1000000 - - 2 N 1 s1 1 2 N 101 - - 1 N 201 e1 1 0 N 2 - 1.1 0 N 1 - 2 0'),
         # base-url with trailing slash, toc-non-files, depth-limited toc (depth 1 < nesting 3)
@@ -431,6 +560,16 @@ _FIRST = [None]
 
 
 def impl(case, aux):
+    if case.stream == 'post':
+        try:
+            return run_post(case.line)
+        except Exception as e:
+            return canon_exc(e)
+    if case.stream == 'idx':
+        try:
+            return run_idx(case)
+        except Exception as e:
+            return canon_exc(e)
     try:
         sU, sF, sT, N, sR, sX = run_url(case.line)
     except AssertionError:
@@ -511,6 +650,17 @@ def oracle(obs, base):
 
 def judge(o):
     o.corr_ok = (o.impl == o.model)
+    if o.case.stream == 'post':
+        o.prop_ok = o.corr_ok          # the model *is* the requirement: identifiers and links survive post-processing
+        if not o.prop_ok:
+            o.note = 'post-processing changed the identifiers/links of the page'
+        return
+    if o.case.stream == 'idx':
+        ids = [g.split('/')[-2] for g in o.impl.split(';') if g] if not o.impl.startswith('err:') else None
+        o.prop_ok = ids is not None and len(set(ids)) == len(ids) and o.spec == 'ok'
+        if not o.prop_ok:
+            o.note = 'group ids on the index page: %r (each navigation link #id needs exactly one heading)' % (ids,)
+        return
     if o.spec == '-':
         o.prop_ok = True
         return
@@ -525,12 +675,39 @@ def judge(o):
 def nontrivial(o):
     if o.spec != 'ok' or o.impl.startswith('err'):
         return False
+    if o.case.stream == 'idx':
+        return o.impl.count(';') >= 1
+    if o.case.stream == 'post':
+        return 'A=' in o.case.line and 'P' in o.case.line.split()
     p = parse_obs(o.impl)
     return p['F'].count('=') >= 2 and '#' in p['U'] and (p['T'] != '' or '~' in p['R'])
 
 
 def shrink(ctx, o, evaluate):
     """drop subtrees / references while the failure persists"""
+    if o.case.stream == 'post':
+        best, improved = o, True
+        while improved:
+            improved = False
+            w = best.case.line.split()
+            for i in range(len(w)):
+                r = evaluate([Case('post', ' '.join(w[:i] + w[i + 1:]), {}, 'shrink')])[0]
+                if not r.prop_ok:
+                    best, improved = r, True
+                    break
+        return best
+    if o.case.stream == 'idx':
+        best, improved = o, True
+        while improved:
+            improved = False
+            keys = best.case.meta['keys']
+            for i in range(len(keys)):
+                c = idx_case_of(keys[:i] + keys[i + 1:])
+                r = evaluate([c])[0]
+                if ((not r.prop_ok) if not o.prop_ok else (not r.corr_ok)):
+                    best, improved = r, True
+                    break
+        return best
     best = o
     improved = True
     while improved:
@@ -578,7 +755,8 @@ def search(ctx, evaluate, corr_bad):
                 return Violation('implementation output violates the link property (found by search from a model disagreement)',
                                  {'kind': 'failing-input', 'outcome': s.to_json()})
     rng = _random.Random(ctx.seed + 7919)
-    cases = [gen_url_case(rng, 'search') for _ in range(4000)] + [gen_url_case(rng, 'search', big=True) for _ in range(400)]
+    cases = ([gen_url_case(rng, 'search') for _ in range(4000)] + [gen_url_case(rng, 'search', big=True) for _ in range(400)] +
+             [gen_idx_case(rng, 'search') for _ in range(400)] + [gen_post_case(rng, 'search') for _ in range(2000)])
     bad = [o for o in evaluate(cases) if not o.prop_ok]
     if bad:
         o = shrink(ctx, bad[0], evaluate)
